@@ -11,25 +11,31 @@ EXTENDS NucsAbs, Json, IOUtils
 
 Traces == ndJsonDeserialize(IOEnv.TRACES)
 
-VARIABLES tid, l, st
-vars == <<tid, l, st>>
+VARIABLES tid, l, st, seen      \* seen: the clauses already reported for the current trace
+vars == <<tid, l, st, seen>>
 
-Init == tid = 1 /\ l = 0 /\ st = InitState(Traces[1])
+Init == tid = 1 /\ l = 0 /\ st = InitState(Traces[1]) /\ seen = {}
 
 Skip == IF tid < Len(Traces)
-        THEN tid' = tid + 1 /\ l' = 0 /\ st' = InitState(Traces[tid + 1])
-        ELSE PrintT(<<"JUDGED", tid>>) /\ tid' = tid + 1 /\ l' = 0 /\ st' = st
+        THEN tid' = tid + 1 /\ l' = 0 /\ st' = InitState(Traces[tid + 1]) /\ seen' = {}
+        ELSE PrintT(<<"JUDGED", tid>>) /\ tid' = tid + 1 /\ l' = 0 /\ st' = st /\ seen' = {}
+
+\* after these the abstract state cannot be carried on; every other failed clause is reported and the
+\* replay continues from the recorded state (so that one defect does not hide another property's clause)
+Fatal == {"XX:unknown-event", "C04:unbounded-pass", "C04:branch-on-nothing", "C04:hung", "C09:level", "C16:index-error"}
 
 Next ==
   /\ tid <= Len(Traces)
   /\ LET T == Traces[tid] IN
      IF l = 0 THEN
-        IF WellFormed(T.P) THEN tid' = tid /\ l' = 1 /\ st' = st
+        IF WellFormed(T.P) THEN tid' = tid /\ l' = 1 /\ st' = st /\ seen' = seen
         ELSE PrintT(<<"VERDICT", T.id, 0, "XX:ill-formed">>) /\ Skip
      ELSE IF l > Len(T.ev) THEN Skip
      ELSE LET r == Step(T, st, T.ev[l]) IN
-          IF r[2] = {} THEN tid' = tid /\ l' = l + 1 /\ st' = r[1]
-          ELSE (\A c \in r[2] : PrintT(<<"VERDICT", T.id, l, c>>)) /\ Skip
+          /\ \A c \in r[2] \ seen : PrintT(<<"VERDICT", T.id, l, c>>)
+          /\ IF r[2] \cap Fatal # {} \/ \E c \in r[2] : Len(c) >= 11 /\ SubSeq(c, 1, 11) = "C04:raised-"
+             THEN Skip
+             ELSE tid' = tid /\ l' = l + 1 /\ st' = r[1] /\ seen' = seen \cup r[2]
 
 Spec == Init /\ [][Next]_vars
 =============================================================================
